@@ -193,7 +193,7 @@ pub fn c02_sunrise(a: &Args) -> Report {
             }
         }
         if k % 4 == 0 {
-            // weather: moves Shurooq/Maghrib by seconds only (< 5 min bound used: see DESIGN), nothing else at all
+            // weather: moves Shurooq/Maghrib by seconds only (<= 20 s; the unchanged code moves them by at most 8 s), nothing else at all
             let w = Weather { pressure: Pressure::try_from(rng.range(100., 1050.)).unwrap(), temperature: Temperature::try_from(rng.range(-90., 57.)).unwrap() };
             if let Ok(tw) = calc(&p, c.loc(), c.date, Some(w)) {
                 for pr in [Prayer::Imsaak, Prayer::Fajr, Prayer::Dhuhr, Prayer::Asr, Prayer::Isha] {
@@ -204,7 +204,8 @@ pub fn c02_sunrise(a: &Args) -> Report {
                 }
                 for pr in [Prayer::Shurooq, Prayer::Maghrib] {
                     if let (Some(x), Some(y)) = (secs(&tw, pr), secs(&t, pr)) {
-                        if sdiff(x, y).abs() >= 300. {
+                        // measured on the unchanged code: at most 8 s over the whole valid weather range at |lat| <= 60
+                        if sdiff(x, y).abs() > 20. {
                             rep.fail(json!({"key": "c02-weather-magnitude", "case": c.json(), "prayer": format!("{:?}", pr), "moved_seconds": sdiff(x, y), "pressure": f64::from(w.pressure), "temperature": f64::from(w.temperature)}));
                         }
                     }
